@@ -399,6 +399,24 @@ fn sequential_case(ctx: &mut Ctx, case: u64, rng: &mut Rng) {
                 }
                 continue;
             }
+            // a request the store must refuse (it names a document the store does not have): it is
+            // answered with an error and costs no document an acknowledged write (added after seeded
+            // change agent-C14-8)
+            if rng.chance(1, 14) {
+                let missing = iroh_docs::NamespaceSecret::from_bytes(&[0xE4; 32]).id();
+                let r = if rng.chance(1, 2) {
+                    h.set_download_policy(missing, iroh_docs::store::DownloadPolicy::default()).await.is_ok()
+                } else {
+                    h.register_useful_peer(missing, [3u8; 32]).await.is_ok()
+                };
+                trace.push(format!("a request for a document the store does not have -> {}", if r { "ok" } else { "refused" }));
+                ctx.count("requests_for_a_missing_document", 1);
+                if r {
+                    ctx.violation(case, "request-for-a-missing-document-succeeded", json!({"trace": trace}));
+                    return;
+                }
+                continue;
+            }
             // store-wide reads through the handle: they, too, are answered in request order and
             // reflect every earlier request (added in round 7 after the coverage run showed that no
             // history ever issued them)
